@@ -94,6 +94,15 @@ Theorem C02_metadata_retransmitted_on_marker : forall resp_len req_len now t (s 
   (exists p, s_out s' = OPdu p :: s_out s /\ o_payload p = PMetadata (s_meta s)) /\ s_naks s' = t.
 Proof. exact metadata_retransmitted_on_marker. Qed.
 
+(* a queued retransmission request [a, b) is answered with exactly one file data PDU carrying the
+   file's bytes of that range; the rest of the queue and the first-pass cursor are left alone *)
+Theorem C02_request_answered : forall resp_len req_len now a b t (s : sstate),
+  s_naks s = (a, b) :: t -> (a =? 0) && (b - a =? 0) = false -> (65535 <? b - a) = false ->
+  let s' := fst (send_missing_data resp_len req_len now s) in
+  (exists p, s_out s' = OPdu p :: s_out s /\ o_payload p = PFileData a (slice (s_file s) a (b - a))) /\
+  s_naks s' = t /\ s_pos s' = s_pos s.
+Proof. exact request_answered. Qed.
+
 Print Assumptions C02_one_clean_round_suffices.
 Print Assumptions C02_any_order_any_duplication.
 Print Assumptions C02_pieces_cover_request.
@@ -104,3 +113,4 @@ Print Assumptions C02_closing_sender_acks_and_ends.
 Print Assumptions C02_closing_receiver_ends_on_ack.
 Print Assumptions C02_metadata_marker_kept.
 Print Assumptions C02_metadata_retransmitted_on_marker.
+Print Assumptions C02_request_answered.
